@@ -415,8 +415,9 @@ def run(w: World, rep: Report):
         'template rules.')
     # each pair check is delegated to OP_CHECK_SIG: its flag/message/verdict rules are obligations here too
     from .report import depend
-    depend(rep, w, 'rules_c02', ('C02.R2', 'C02.R3', 'C02.R4'), 'C03.TD2',
-           'the single-signature check the multisig delegates to satisfies its own rules (C02.R2-R4 re-evaluated)', floor=10)
+    depend(rep, w, 'rules_c02', ('C02.R1', 'C02.R2', 'C02.R3', 'C02.R4', 'C02.R5'), 'C03.TD2',
+           'the single-signature check the multisig delegates to satisfies its own rules: message builder, allowed flags, '
+           'one builder, length guards, verdict mapping (C02.R1-R5 re-evaluated)', floor=20)
     try:
         from . import rules_templates as rt2
         if hasattr(rt2, 'c03_builders'):
